@@ -4,6 +4,7 @@ C14 — table (affine) converters are exact, invertible and mutually consistent.
 -/
 import QuantityModel.Model.Converters
 import QuantityModel.Gen.TempTable
+import QuantityModel.Proofs.Quantity
 import Mathlib.Algebra.Order.Field.Rat
 import Mathlib.Tactic.FieldSimp
 import Mathlib.Tactic.Ring
@@ -93,5 +94,87 @@ theorem temperature_fixed_points :
     tableConvert tempRows "K" "°F" 0 = some (-45967 / 100) ∧
     tableConvert tempRows "K" "°C" 0 = some (-27315 / 100) ∧
     tableConvert tempRows "°F" "K" 32 = some (27315 / 100) := by decide +kernel
+
+/-! ### the tie to the quantity model -/
+
+section Tie
+open QM.QState
+
+/-- the rows of a registered table converter as `Row`s -/
+def toRows (t : ConvTable) : List (Row Nat) :=
+  t.rows.map fun r => ⟨r.1.1, r.1.2, r.2.1, r.2.2⟩
+
+theorem lookup_eq_rowLookup_aux (l : List ((Nat × Nat) × (Rat × Rat))) (u v : Nat) :
+    ((l.map fun r => (⟨r.1.1, r.1.2, r.2.1, r.2.2⟩ : Row Nat)).find?
+        fun r => r.src == u && r.dst == v).map (fun r => (r.factor, r.offset)) = l.lookup (u, v) := by
+  induction l with
+  | nil => rfl
+  | cons x rest ih =>
+    obtain ⟨⟨f, t⟩, ⟨k, o⟩⟩ := x
+    simp only [List.map_cons, List.find?_cons, List.lookup_cons]
+    by_cases h : f = u ∧ t = v
+    · obtain ⟨rfl, rfl⟩ := h
+      simp
+    · have h1 : (f == u && t == v) = false := by
+        simp only [Bool.and_eq_false_imp, beq_iff_eq, beq_eq_false_iff_ne, ne_eq]
+        intro hf ht; exact h ⟨hf, ht⟩
+      have h2 : ((u, v) == (f, t)) = false := by
+        simp only [beq_eq_false_iff_ne, ne_eq, Prod.mk.injEq]
+        intro ⟨a, b⟩; exact h ⟨a.symm, b.symm⟩
+      simp only [h1, h2]
+      exact ih
+
+/-- **the table look-up of the quantity model is the `tableConvert` the C14
+theorems are about** — so everything proved above (direct / reverse rows, last
+row wins, round trips, composition) holds for `Quantity.convert` through a
+registered table converter -/
+theorem tableLookup_eq_tableConvert (t : ConvTable) (u v : Nat) (a : ℚ) :
+    tableLookup t u v a = tableConvert (toRows t) u v a := by
+  have key : ∀ x y, rowLookup (toRows t) x y = t.rows.reverse.lookup (x, y) := by
+    intro x y
+    unfold rowLookup toRows
+    rw [← List.map_reverse]
+    exact lookup_eq_rowLookup_aux _ x y
+  unfold tableLookup tableConvert
+  simp only [key]
+  cases h1 : t.rows.reverse.lookup (u, v) with
+  | some p => obtain ⟨f, o⟩ := p; rfl
+  | none =>
+    cases h2 : t.rows.reverse.lookup (v, u) with
+    | some p => obtain ⟨f, o⟩ := p; rfl
+    | none => rfl
+
+/-- `Quantity.convert` in a type without reference unit whose only registered
+converter is the table `t`: exactly what the table says, UnitConversionError
+where it says nothing -/
+theorem convert_through_table {s : QState} {d : Rounding} {q : Qty} {v : Nat} (tid : Nat)
+    (hc : s.reg.unitCls q.unit = s.reg.unitCls v) (hne : q.unit ≠ v)
+    (href : (s.reg.cls (s.reg.unitCls q.unit)).refUnit = none)
+    (hmoney : (s.reg.cls (s.reg.unitCls q.unit)).isMoney = false)
+    (hconv : s.clsConverters (s.reg.unitCls q.unit) = [tid])
+    (hq : s.reg.unitQuantum v = none) :
+    s.convert d q v =
+      match tableConvert (toRows (s.tables.getD tid default)) q.unit v q.amount with
+      | some a => .ok ⟨a, v⟩
+      | none => .error .UnitConversionError := by
+  have he : s.equivAmount q v =
+      .ok (tableConvert (toRows (s.tables.getD tid default)) q.unit v q.amount) := by
+    unfold QState.equivAmount RegState.unitEq RegState.unitFactor
+    have h1 : (s.reg.unitCls q.unit != s.reg.unitCls v) = false := by simp [hc]
+    have h2 : (q.unit == v) = false := by simpa using hne
+    simp only [h1, href, Option.isNone_none, Bool.false_eq_true, ↓reduceIte, h2, hmoney, hconv,
+      List.reverse_cons, List.reverse_nil, List.nil_append]
+    unfold QState.equivAmount.tryConv QState.applyTable
+    simp only [h2, Bool.false_eq_true, ↓reduceIte, hc, beq_self_eq_true, tableLookup_eq_tableConvert]
+    cases tableConvert (toRows (s.tables.getD tid default)) q.unit v q.amount with
+    | some a => rfl
+    | none => unfold QState.equivAmount.tryConv; rfl
+  unfold QState.convert
+  rw [he]
+  cases tableConvert (toRows (s.tables.getD tid default)) q.unit v q.amount with
+  | none => rfl
+  | some a => simp only; exact mkQty_no_quantum rfl hq
+
+end Tie
 
 end QM.Props.C14
